@@ -5,7 +5,7 @@ from ..index import AnalysisError, dotted_chain, norm, unparse, walk_no_nested, 
 from ..effects import EffectAnalyzer
 from ..fieldflow import base_field
 from ..cfg import CFG, EXIT
-from ..util import calls_in, call_name, where, returns_of, parent_map, enclosing
+from ..util import calls_in, call_name, where, returns_of, parent_map, enclosing, kwarg
 from .. import props
 from . import common
 
@@ -40,6 +40,7 @@ def run(ctx):
     ctx.guard(rule_c, ctx, ix)
     ctx.guard(rule_d, ctx, ix)
     ctx.guard(rule_f, ctx, ix)
+    ctx.guard(rule_g, ctx, ix)
     # a link replaced behind the "unchanged" shortcut leaves the memoised masks of linked attributes in place
     from ..report import BorrowedCtx
     from .C03 import rule_e as _shortcut
@@ -546,3 +547,55 @@ def rule_f(ctx, ix):
     n = common.check_inplace_fresh(ctx, R, ix, ['glue.utils.array'], exceptions={('-', '-'): '-'}, borrowed_params=True)
     if n < 3:
         raise AnalysisError('C05.f: only %d in-place writes seen in glue.utils.array' % n)
+
+
+ALIAS_PRESERVING = {'asarray', 'asanyarray', 'view', 'reshape', 'ravel', 'squeeze', 'require', 'atleast_1d'}
+
+
+def rule_g(ctx, ix):
+    """What a reader takes out of a hand-rolled cache (`self._histogram_cache`, `self._profile_cache`, ...) belongs to the cache:
+    scaling or normalising it in place changes what the next reader gets.  The value has to be copied (astype without
+    copy=False, .copy(), arithmetic that makes a new array) before any in-place operation."""
+    R = 'C05.g'
+    ctx.describe(R, 'arrays read from a hand-rolled cache are copied before they are changed in place', floor=2)
+    n = 0
+    for mname in sorted(m for m in ix.modules if m.startswith('glue.viewers') and m.endswith('.state')):
+        mod = ix.module(mname)
+        for cn in [c for c in ast.walk(mod.tree) if isinstance(c, ast.ClassDef)]:
+            for fn in [x for x in cn.body if isinstance(x, ast.FunctionDef)]:
+                reads = [st for st in walk_no_nested(fn) if isinstance(st, ast.Assign) and any(
+                    isinstance(a, ast.Attribute) and a.attr.endswith('_cache') and isinstance(a.ctx, ast.Load) for a in ast.walk(st.value))]
+                if not reads:
+                    continue
+                n += 1
+                owned = set()       # names that may still be the cached array itself
+                for st in sorted(walk_no_nested(fn), key=lambda x: getattr(x, 'lineno', 0)):
+                    if isinstance(st, ast.Assign):
+                        v = st.value
+                        from_cache = any(isinstance(a, ast.Attribute) and a.attr.endswith('_cache') for a in ast.walk(v)) and not isinstance(v, ast.Call)
+                        alias = isinstance(v, ast.Name) and v.id in owned
+                        if isinstance(v, ast.Call) and isinstance(v.func, ast.Attribute) and isinstance(v.func.value, ast.Name) and v.func.value.id in owned:
+                            cp = kwarg(v, 'copy')
+                            if v.func.attr in ALIAS_PRESERVING or (v.func.attr == 'astype' and cp is not None and isinstance(cp, ast.Constant) and cp.value is False):
+                                alias = True
+                        if isinstance(v, ast.Call) and call_name(v) in ALIAS_PRESERVING and v.args and isinstance(v.args[0], ast.Name) and v.args[0].id in owned:
+                            alias = True
+                        for t in st.targets:
+                            for x in (t.elts if isinstance(t, (ast.Tuple, ast.List)) else [t]):
+                                if isinstance(x, ast.Name):
+                                    if from_cache or alias:
+                                        owned.add(x.id)
+                                    elif st in fn.body:
+                                        owned.discard(x.id)      # an unconditional re-binding; one under a test may not happen
+                    elif isinstance(st, ast.AugAssign):
+                        tgt = st.target
+                        while isinstance(tgt, ast.Subscript):
+                            tgt = tgt.value
+                        if isinstance(tgt, ast.Name) and tgt.id in owned:
+                            ctx.ob(R, '%s:%s.%s `%s`' % (mname, cn.name, fn.name, norm(st)), 'in-place operation on a copy', False,
+                                   detail='%s.%s changes `%s` in place, and that name can still be the array stored in the cache (it was taken out '
+                                          'of it without a copy): the next reader of the cache gets the scaled values and scales them again'
+                                          % (cn.name, fn.name, tgt.id), where='%s:%d' % (mod.relpath, st.lineno))
+                ctx.ob(R, '%s:%s.%s' % (mname, cn.name, fn.name), 'no in-place change of a cached array', True)
+    if n < 2:
+        raise AnalysisError('C05.g: only %d readers of hand-rolled caches found in the viewer states' % n)
